@@ -115,6 +115,18 @@ func c05corpus() []*c05Prog {
 		c05prog("corpus", []*c05Expr{ePath("d", dot("x")), ePath("d", dot("y")), ePath("d", dot("z")), ePath("e", dot("z")), ePath("c", dot("z"))},
 			tmplA, tmplB, tmplC, sAssign("d", eBuiltin("new", v("c"), n(4), n(8))), sAssign("e", eBuiltin("new", v("c"), n(1))),
 			sMark(eCall("d", []*c05Acc{dot("getx")})), sMark(eCall("d", []*c05Acc{dot("gety")}))),
+		// result independence of concat (capacity of the first argument, empty other arguments)
+		c05prog("corpus", pv("a", "b", "c"),
+			sAssign("a", eList(n(1), n(2), n(3))), sAssign("b", eBuiltin("concat", v("a"), eList(n(4)))),
+			sAssign("c", eBuiltin("concat", v("a"), eList(n(5)))), sMark(eList(v("a"), v("b"), v("c")))),
+		c05prog("corpus", pv("a", "b"),
+			sAssign("a", eList(n(1), n(2))), sAssign("b", eBuiltin("concat", v("a"), eList())),
+			sAssignP("b", []*c05Acc{idx(n(0))}, n(100)), sMark(eList(v("a"), v("b"))),
+			sAssignP("a", []*c05Acc{idx(n(1))}, n(7)), sMark(eList(v("a"), v("b")))),
+		c05prog("corpus", pv("a", "b", "c", "d"),
+			sAssign("a", eList()), sAssign("b", eBuiltin("concat", v("a"), eList(), v("a"))),
+			sAssign("b", eBuiltin("add", v("b"), n(1))), sAssign("c", eBuiltin("concat", eList(n(9)), v("b"), eList())),
+			sAssign("d", eBuiltin("concat", v("c"), v("c"))), sAssignP("d", []*c05Acc{idx(n(0))}, n(0)), sMark(eList(v("a"), v("b"), v("c"), v("d")))),
 		// a block that is entered again: the reference semantics leaves this open (informational)
 		c05prog("corpus", pv("a"),
 			sFor("b", eList(n(1), n(2)), sIf(eBin("==", v("b"), n(1)), blk(sAssign("a", n(1))), nil), sMark(v("a")), sAssign("a", n(2)))),
@@ -145,10 +157,34 @@ func c05pool() []func() *c05Stmt {
 	}
 }
 
+// Result independence of the list built-ins.  concat returns a NEW list and leaves its arguments
+// usable (ecal.md: "The result is a new list"): writing through the result must not show in an
+// argument, a second concat on the same first argument must not change the first result, also
+// when the other arguments are empty and whatever the spare capacity of the first argument is
+// (list literals are built with append: lengths 0..5 have capacities 0,1,2,4,4,8).
+// add / del return the modified list and only the returned value may be used further
+// (ecal.md), so for them the result is read, never the argument.
+func c05listPool() []func() *c05Stmt {
+	n := eNum
+	v := eVar
+	return []func() *c05Stmt{
+		func() *c05Stmt { return sAssign("a", eList(n(1), n(2), n(3))) },
+		func() *c05Stmt { return sAssign("a", eList()) },
+		func() *c05Stmt { return sAssign("a", eList(n(1), n(2), n(3), n(4), n(5))) },
+		func() *c05Stmt { return sAssign("b", eBuiltin("concat", v("a"), eList(n(4)))) },
+		func() *c05Stmt { return sAssign("c", eBuiltin("concat", v("a"), eList(n(5)))) },
+		func() *c05Stmt { return sAssign("b", eBuiltin("concat", v("a"), eList())) },
+		func() *c05Stmt { return sAssignP("b", []*c05Acc{idx(n(0))}, n(100)) },
+		func() *c05Stmt { return sAssign("c", eBuiltin("concat", v("a"), v("b"), eList())) },
+		func() *c05Stmt { return sAssignP("a", []*c05Acc{idx(n(-1))}, n(7)) },
+		func() *c05Stmt { return sAssign("c", eBuiltin("add", eBuiltin("concat", v("a"), eList()), n(6))) },
+		func() *c05Stmt { return sAssign("b", eBuiltin("del", eBuiltin("concat", v("b"), eList()), n(0))) },
+	}
+}
+
 // all sequences up to maxLen-1 statements, and every stride-th sequence of maxLen statements
 // (maxLen 4: over the first ten statements of the pool)
-func c05exhaustive(maxLen int, stride int, emit func(p *c05Prog)) {
-	pool := c05pool()
+func c05exhaustive(pool []func() *c05Stmt, stream string, probes []string, maxLen int, stride int, emit func(p *c05Prog)) {
 	count := 0
 	var rec func(prefix []int)
 	rec = func(prefix []int) {
@@ -159,14 +195,14 @@ func c05exhaustive(maxLen int, stride int, emit func(p *c05Prog)) {
 				for _, i := range prefix {
 					ss = append(ss, pool[i]())
 				}
-				emit(c05prog("exhaustive", pv("a", "b"), ss...))
+				emit(c05prog(stream, pv(probes...), ss...))
 			}
 		}
 		if len(prefix) == maxLen {
 			return
 		}
 		lim := len(pool)
-		if maxLen > 3 {
+		if maxLen > 3 && lim > 10 {
 			lim = 10
 		}
 		for i := 0; i < lim; i++ {
@@ -571,7 +607,9 @@ func (g *c05gen) numArgs(env *c05env, n int) []*c05Expr {
 
 func (g *c05gen) stmt(env *c05env, d int, inFunc bool) []*c05Stmt {
 	x := g.name()
-	switch g.n(27) {
+	switch g.n(29) {
+	case 27, 28:
+		return g.scenarioLists(env)
 	case 24, 25:
 		return g.scenarioRef(env)
 	case 26:
@@ -774,6 +812,56 @@ func (g *c05gen) scenarioRef(env *c05env) []*c05Stmt {
 	return blk(sAssign(t, lit), sAssign(d, eNum(int64(5+g.n(3)))),
 		sFunc(f, prm(p, q), sAssignP(p, []*c05Acc{acc}, eVar(q)), sAssign(q, eNum(0)), sReturn(eBuiltin("len", eVar(p)))),
 		sMark(eCall(f, nil, eVar(t), eVar(d))), sMark(eList(eVar(t), eVar(d))))
+}
+
+// result independence of the list built-ins: literals of length 0..5, concat once or twice on the
+// same first argument (other arguments possibly empty), a write through a result or an argument,
+// then everything is read; add / del are applied to a result (the argument of add / del must not
+// be used afterwards)
+func (g *c05gen) scenarioLists(env *c05env) []*c05Stmt {
+	names := append([]string{}, c05Names...)
+	g.rng().Shuffle(len(names), func(i, j int) { names[i], names[j] = names[j], names[i] })
+	a, r1, r2 := names[0], names[1], names[2]
+	lit := func(n int) *c05Expr {
+		var es []*c05Expr
+		for i := 0; i < n; i++ {
+			es = append(es, eNum(int64(i+1)))
+		}
+		return eList(es...)
+	}
+	other := func() []*c05Expr {
+		switch g.n(4) {
+		case 0:
+			return []*c05Expr{eList()}
+		case 1:
+			return []*c05Expr{eList(), eList()}
+		case 2:
+			return []*c05Expr{lit(1 + g.n(2)), eList()}
+		}
+		return []*c05Expr{lit(1 + g.n(3))}
+	}
+	ss := blk(sAssign(a, lit(g.n(6))))
+	env.set(a, kList)
+	env.set(r1, kList)
+	ss = append(ss, sAssign(r1, eBuiltin("concat", append([]*c05Expr{eVar(a)}, other()...)...)))
+	if g.n(3) > 0 {
+		ss = append(ss, sAssign(r2, eBuiltin("concat", append([]*c05Expr{eVar(a)}, other()...)...)))
+		env.set(r2, kList)
+	} else {
+		r2 = r1
+	}
+	w := []string{a, r1, r2}[g.n(3)]
+	ss = append(ss, sAssignP(w, []*c05Acc{idx(eNum(int64(g.n(3) - 1)))}, eNum(100)))
+	switch g.n(4) {
+	case 0:
+		ss = append(ss, sAssign(r1, eBuiltin("add", eVar(r1), eNum(50), eNum(0))))
+	case 1:
+		ss = append(ss, sAssign(r1, eBuiltin("add", eVar(r1), eNum(51))))
+	case 2:
+		ss = append(ss, sAssign(r1, eBuiltin("del", eVar(r1), eNum(0))))
+	}
+	ss = append(ss, sMark(eList(eVar(a), eVar(r1), eVar(r2))))
+	return ss
 }
 
 // two or three templates, an object, its properties and methods
